@@ -485,6 +485,6 @@ def replay(ctx, case):
         _call(ctx, fn, inr, case, op, ok2)
     else:
         # remaining kinds are re-driven by their (deterministic) part
-        part = {"inst": "instant", "from": "instant", "off": "offset", "contract": "dur_ops", "dur": "dur_ops"}.get(k.split("_")[0], "instant")
+        part = ctx.shard.get("part") or {"inst": "instant", "from": "instant", "off": "offset", "contract": "dur_ops", "dur": "dur_ops"}.get(k.split("_")[0], "instant")
         PARTS[part](ctx, mon)
     ctx.distinct(2)
